@@ -329,6 +329,7 @@ func cmdRun(args []string) int {
 	})
 	replayDir := filepath.Join(cf.verifDir, "replays", cf.property)
 	seen := map[string]bool{}
+	perCode := map[string]int{}
 	var violLines []string
 	newViolations := 0
 	for _, cv := range classified {
@@ -344,7 +345,8 @@ func cmdRun(args []string) int {
 		}
 		seen[key] = true
 		newViolations++
-		if len(violLines) >= 20 {
+		perCode[cv.rec.Code]++
+		if len(violLines) >= 20 || perCode[cv.rec.Code] > 4 {
 			continue
 		}
 		os.MkdirAll(replayDir, 0o755)
@@ -391,6 +393,9 @@ func cmdRun(args []string) int {
 	}
 	for _, l := range violLines {
 		fmt.Println(l)
+	}
+	if newViolations > 0 {
+		fmt.Printf("distinct new violations by code: %v\n", perCode)
 	}
 	fmt.Printf("%s %s seed=%d: cases=%d nontrivial_distinct=%d violations(new)=%d known_attributed=%d inconclusive=%d wall=%.1fs\n",
 		cf.property, cf.tier, cf.seed, agg.Cases, distinctNT, newViolations, sumMap(knownHits), agg.NInconcl, time.Since(start).Seconds())
